@@ -150,9 +150,10 @@ func senderScenario(st *stack.Stack, r *rec, rng *rand.Rand, idx int) {
 		return
 	}
 	granted := map[uint32]int{}
+	connGranted := 0
 	bodyOf := map[uint32]int{}
 	maxInit := w0
-	sizes := []int{0, 1, 100, 5000, 20000, 40000, 70000}
+	sizes := []int{0, 1, 100, 5000, 20000, 40000, 70000, 70000}
 	nstreams := 1 + rng.Intn(3)
 	if connBound {
 		nstreams = 3
@@ -180,6 +181,7 @@ func senderScenario(st *stack.Stack, r *rec, rng *rand.Rand, idx int) {
 		case k < 6 && !connBound:
 			n := []uint32{1, 1000, 20000, 100000}[rng.Intn(4)]
 			c.cl.Conn.Write(h2raw.WindowUpdate(0, n))
+			connGranted += int(n)
 			c.r.ev(map[string]any{"op": "wu", "s": 0, "n": n, "sure": false})
 		case k < 8:
 			v := []int{0, 5, 200, 4000, 65535, 100000}[rng.Intn(6)]
@@ -203,9 +205,10 @@ func senderScenario(st *stack.Stack, r *rec, rng *rand.Rand, idx int) {
 		case k == 8 && len(overflowed) == 0 && rng.Intn(3) == 0:
 			// overflow attempt on one stream: two maximal increments - the second overflows 2^31-1 whatever the window was
 			sid := ids[rng.Intn(len(ids))]
-			if maxInit+granted[sid] >= bodyOf[sid] {
-				// the response may already be complete (stream closed at the server: the increment would be ignored): the outcome
-				// is only certain on a stream that cannot have been finished with the credit granted so far
+			if maxInit+granted[sid] >= bodyOf[sid] || bodyOf[sid] <= 65535+connGranted {
+				// the response may already be complete (stream closed at the server: the increment would be ignored), or may
+				// complete between the two increments (the first one is ample stream credit): the outcome is only certain on a
+				// stream that cannot finish at all - its body exceeds all connection-level credit handed out so far
 				continue
 			}
 			c.cl.Conn.Write(h2raw.WindowUpdate(sid, 1<<31-1))
